@@ -88,6 +88,15 @@ class Registry:
 
         return deco
 
+    def allow_inline(self, *keys):
+        """repository helpers whose real body callers may inline (listed in the evidence)"""
+        for k in keys:
+            self.inline_ok.add(k)
+            self._async_names.add(k)
+            parts = k.split(".")
+            for i in range(2, len(parts)):
+                self._async_names.add(".".join(parts[:i]))
+
     def all_async_names(self):
         return set(self._async_names)
 
